@@ -9,7 +9,7 @@ matched against *any* rule of B)."""
 from vfacts import strip, walk, method_name
 
 RULE = 'SYMIDX'
-FLOOR = 4
+FLOOR = 3
 INNER = 'std::vector<std::vector<const std::vector<unsigned long> *'
 
 
